@@ -55,6 +55,7 @@ fn emit(prop: &str, op: usize, events: &[Event], stats: &mut Stats) {
                     Event::RayStart(_, _) => break,
                     Event::Group(g) => groups.push(g),
                     Event::Set(s, e, x) => sets.push((*s, *e, *x)),
+                    Event::Op(_, _) => break,
                 }
                 j += 1;
             }
@@ -81,11 +82,71 @@ fn emit(prop: &str, op: usize, events: &[Event], stats: &mut Stats) {
     }
 }
 
+/// expression trees for path_combine: leaves of 0..2 shapes, operations with 0..3 operands, depth <= 3
+enum Tree { Path(Vec<P>), Rem(Vec<P>), Add(Vec<Tree>), Sub(Vec<Tree>), Int(Vec<Tree>) }
+
+fn gen_tree(rng: &mut Rng, depth: u32) -> Tree {
+    let leaf = |rng: &mut Rng| -> Vec<P> { let k = match rng.i(8) { 0 => 0, 1 => 2, _ => 1 }; (0..k).map(|_| rand_shape(rng).0).collect() };
+    if depth == 0 || rng.i(3) == 0 {
+        if rng.i(4) == 0 { Tree::Rem(leaf(rng)) } else { Tree::Path(leaf(rng)) }
+    } else {
+        let k = match rng.i(10) { 0 => 0, 1 => 1, 2..=6 => 2, _ => 3 };
+        let ops: Vec<Tree> = (0..k).map(|_| gen_tree(rng, depth - 1)).collect();
+        match rng.i(3) { 0 => Tree::Add(ops), 1 => Tree::Sub(ops), _ => Tree::Int(ops) }
+    }
+}
+
+fn to_combine(t: &Tree) -> PathCombine<P> {
+    match t {
+        Tree::Path(p) => PathCombine::Path(p.clone()),
+        Tree::Rem(p) => PathCombine::RemoveInteriorPoints(p.clone()),
+        Tree::Add(o) => PathCombine::Add(o.iter().map(to_combine).collect()),
+        Tree::Sub(o) => PathCombine::Subtract(o.iter().map(to_combine).collect()),
+        Tree::Int(o) => PathCombine::Intersect(o.iter().map(to_combine).collect()),
+    }
+}
+
+fn ser_tree(t: &Tree, out: &mut String) {
+    match t {
+        Tree::Path(p) => *out += &format!(" P {:016x}", verif_trace::fingerprint(p)),
+        Tree::Rem(p) => *out += &format!(" R {:016x}", verif_trace::fingerprint(p)),
+        Tree::Add(o) | Tree::Sub(o) | Tree::Int(o) => {
+            *out += &format!(" {} #{}", match t { Tree::Add(_) => "A", Tree::Sub(_) => "S", _ => "I" }, o.len());
+            for c in o { ser_tree(c, out); }
+        }
+    }
+}
+
+fn tree_depth(t: &Tree) -> usize { match t { Tree::Path(_) | Tree::Rem(_) => 0, Tree::Add(o) | Tree::Sub(o) | Tree::Int(o) => 1 + o.iter().map(tree_depth).max().unwrap_or(0) } }
+
+/// path_combine on a random expression tree: the operations it enters (hook H4) for the model of `path_combine`, and
+/// every classification pass of every operation replayed with that operation's predicate
+fn corr_combine(rng: &mut Rng, stats: &mut Stats) {
+    let tree = loop { let t = gen_tree(rng, 3); if tree_depth(&t) >= 1 || rng.i(10) == 0 { break t; } };
+    let pc = to_combine(&tree);
+    let r = std::panic::catch_unwind(move || { verif_trace::start(); path_combine::<P>(pc, 0.01); verif_trace::take() });
+    let ev = match r { Ok(e) => e, Err(_) => { verif_trace::take(); stats.count("panicked_operations"); return; } };
+    let mut ser = String::new();
+    ser_tree(&tree, &mut ser);
+    let ops: Vec<(usize, &'static str, &Vec<u64>)> = ev.iter().enumerate().filter_map(|(k, e)| if let Event::Op(name, fps) = e { Some((k, *name, fps)) } else { None }).collect();
+    let mut line = format!("C11 combine D{} | {:016x} #{}", ser, verif_trace::fingerprint(&Vec::<P>::new()), ops.len());
+    for (_, name, fps) in &ops { line += &format!(" {} #{}", name, fps.len()); for f in fps.iter() { line += &format!(" {:016x}", f); } }
+    stats.case(&line, ops.len() >= 2);
+    stats.count(&format!("combine.depth{}.ops{}", tree_depth(&tree), ops.len().min(6)));
+    println!("{}", line);
+    for (i, (k, name, _)) in ops.iter().enumerate() {
+        let hi = if i + 1 < ops.len() { ops[i + 1].0 } else { ev.len() };
+        let pred = match *name { "sub" => 1, "intersect" => 2, "remove_interior" => 3, _ => 4 };
+        emit("C11", pred, &ev[*k + 1..hi], stats);
+    }
+}
+
 pub fn corr(prop: &str, seed: u64, n: u64) {
     let mut rng = Rng(seed ^ 0x7ACE ^ fnv(prop));
     let mut stats = Stats::new();
     std::panic::set_hook(Box::new(|_| {}));
-    for _ in 0..n {
+    for it in 0..n {
+        if prop == "C11" && it % 2 == 1 { corr_combine(&mut rng, &mut stats); continue; }
         let (a, ka) = rand_shape(&mut rng);
         let (b, kb) = rand_shape(&mut rng);
         let (c, _) = rand_shape(&mut rng);
